@@ -22,6 +22,8 @@ import (
 	"path/filepath"
 	"regexp"
 	"runtime"
+	"runtime/debug"
+	"runtime/metrics"
 	"sort"
 	"strings"
 	"sync"
@@ -73,7 +75,7 @@ type c10Env struct {
 // liveness bound of one request (see CHECK level_note): the only wall-clock use in this check.
 const c10RequestBound = 20 * time.Second
 
-// heap size at which a request on a file of at most a few hundred KiB is declared a runaway
+// growth of the live heap during one request at which a request on a file of at most a few hundred KiB is declared a runaway
 const c10HeapBound = 1 << 30
 
 var c10FrameRe = regexp.MustCompile(`(?m)^(/\S+\.go:\d+) \(0x[0-9a-f]+\)\n\t([^:\n]+):`)
@@ -130,8 +132,7 @@ func (e *c10Env) do(method, path string, body []byte, fileLen int) (r c10Resp, s
 	}
 	w := c10Recorder{httptest.NewRecorder()}
 	done := make(chan struct{})
-	var m0, m1 runtime.MemStats
-	runtime.ReadMemStats(&m0)
+	a0, h0 := c10Mem()
 	go func() {
 		defer close(done)
 		e.router.ServeHTTP(w, req)
@@ -145,10 +146,10 @@ wait:
 		case <-done:
 			break wait
 		case <-tick.C:
-			runtime.ReadMemStats(&m1)
+			_, h1 := c10Mem()
 			switch {
-			case m1.HeapAlloc > c10HeapBound:
-				stuck = fmt.Sprintf("still running after %.1fs with the heap grown to %d MiB", time.Since(start).Seconds(), m1.HeapAlloc>>20)
+			case h1 > h0+c10HeapBound:
+				stuck = fmt.Sprintf("still running after %.1fs with the heap grown from %d to %d MiB", time.Since(start).Seconds(), h0>>20, h1>>20)
 			case time.Since(start) > c10RequestBound:
 				stuck = fmt.Sprintf("not answered within %s", c10RequestBound)
 			}
@@ -162,11 +163,12 @@ wait:
 				}
 				os.Setenv("OLLAMA_MODELS", e.dir)
 				e.recovery.take()
+				debug.FreeOSMemory() // collect what the runaway left behind before the next case is measured
 				return r, stuck, ""
 			}
 		}
 	}
-	runtime.ReadMemStats(&m1)
+	a1, _ := c10Mem()
 	r.code = w.Code
 	r.body = w.Body.Bytes()
 	if log := e.recovery.take(); strings.Contains(log, "[Recovery]") {
@@ -175,10 +177,17 @@ wait:
 	if r.code < 100 || r.code >= 600 {
 		return r, "", fmt.Sprintf("%s %s: status %d", method, path, r.code)
 	}
-	if alloc, budget := m1.TotalAlloc-m0.TotalAlloc, uint64(128<<20+64*(fileLen+len(body))); alloc > budget {
+	if alloc, budget := a1-a0, uint64(128<<20+64*(fileLen+len(body))); alloc > budget {
 		return r, "", fmt.Sprintf("%s %s: the process allocated %d bytes while serving the request for a %d-byte file (budget 128 MiB + 64*len = %d)", method, path, alloc, fileLen, budget)
 	}
 	return r, "", ""
+}
+
+// c10Mem reads cumulative allocated bytes and live heap bytes without stopping the world.
+func c10Mem() (totalAlloc, heapObjects uint64) {
+	s := []metrics.Sample{{Name: "/gc/heap/allocs:bytes"}, {Name: "/memory/classes/heap/objects:bytes"}}
+	metrics.Read(s)
+	return s[0].Value.Uint64(), s[1].Value.Uint64()
 }
 
 func c10StacksContain(subs ...string) string {
